@@ -21,6 +21,7 @@ CLASSES = {
     'detect_measures': {'quick': 14400, 'thorough': 144000},
     'solver': {'quick': 1080, 'thorough': 10800},
     'mask_update': {'quick': 13500, 'thorough': 135000},
+    'condition_objects': {'quick': 3000, 'thorough': 30000},
     'impose_measure': {'quick': 13500, 'thorough': 135000},
 }
 MIN_EVENTS = {'quick': {'assert:detect': 4000, 'assert:solver': 200, 'collapses_applied': 40, 'assert:mask': 2500, 'measure_constraints_applied': 1000}}
@@ -208,6 +209,49 @@ def run_detect_measures(rng, obs):
     obs.notes = {'result_size': len(got)}
 
 
+def run_condition_objects(rng, obs):
+    """the Collapse* termination OBJECTS asked about different solvers in turn (multi-start loops, ensembles, post-hoc Collapsed() over
+    finished solvers - also solvers whose histories have the same length): each answer is what the detector reports for THAT solver's
+    recorded history, and the message round-trips through collapse.collapsed()"""
+    from mystic.monitors import Monitor
+    from mystic.solvers import NelderMeadSimplexSolver
+    import mystic.collapse as mc, mystic.termination as mt
+    dim = rng.randint(2, 5); n = rng.randint(4, 12)
+    tol = rng.choice([0.005, 1e-3, 0.05, 2.0]); gens = rng.choice([1, 2, 3, 5])
+    kind = rng.choice(['CollapseAt', 'CollapseAs'])
+    target = rng.choice([None, 0.0, 1.0]) if kind == 'CollapseAt' else None
+    cond = mt.CollapseAt(target, tolerance=tol, generations=gens) if kind == 'CollapseAt' else mt.CollapseAs(False, tolerance=tol, generations=gens)
+    def solver_with(hist):
+        s_ = NelderMeadSimplexSolver(dim)
+        m_ = Monitor()
+        for i, x in enumerate(hist): m_(x, float(len(hist) - i))
+        s_.SetGenerationMonitor(m_, new=True)
+        return s_, m_
+    lens = [n, n, rng.choice([n, n + 1, max(2, n - 2)]), n]          # mostly EQUAL lengths
+    hists = [gen_history(rng, L, dim) for L in lens]
+    obs.desc = {'condition': kind, 'tol': tol, 'generations': gens, 'target': target, 'lengths': lens, 'dim': dim}
+    seen_nonempty = 0
+    order = [0, 1, 0, 2, 3, 1]
+    solvers = [solver_with(h) for h in hists]
+    for j in order:
+        s_, m_ = solvers[j]
+        msg = cond(s_, True)
+        got = mc.collapsed(msg) if msg else None
+        got = set(list(got.values())[0]) if got else set()
+        if kind == 'CollapseAt':
+            want = set(mc.collapse_at(m_, target=target, tolerance=tol, generations=gens)) if len(m_) > gens else set()
+            got = set(int(i) for i in got); want = set(int(i) for i in want)
+        else:
+            want = set(mc.collapse_as(m_, offset=False, tolerance=tol, generations=gens)) if len(m_) > gens else set()
+            got = set(tuple(sorted(map(int, q))) for q in got); want = set(tuple(sorted(map(int, q))) for q in want)
+        obs.check(got == want and bool(cond(s_)) == bool(want), 'detect:a Collapse* condition reports what the detector reports for the solver it is asked about', condition=kind,
+                  asked_about=j, order=order, lengths=lens, observed=sorted(map(str, got)), expected=sorted(map(str, want)), hist=hists[j][-3:])
+        if want: seen_nonempty += 1
+    obs.event('condition_object_evaluations', len(order))
+    obs.nontrivial = seen_nonempty >= 1 and len(set(lens)) < len(lens)
+    obs.notes = {'nonempty_answers': seen_nonempty}
+
+
 def run_solver(rng, obs):
     import mystic.termination as mt
     from mystic.solvers import NelderMeadSimplexSolver, PowellDirectionalSolver, DifferentialEvolutionSolver
@@ -224,14 +268,6 @@ def run_solver(rng, obs):
         target = [rng.choice([0.0, c, c, round(c + 0.5, 2)]) for c in spec[1]]
     conds = ['at'] if rng.random() < 0.4 else (['as'] if rng.random() < 0.3 else ['at', 'as'])
     obs.desc = {'solver': kind, 'dim': dim, 'cost': spec, 'window': gens, 'tol': tol, 'target': target, 'collapse': conds}
-    probe = K.CostProbe(raw)
-    s = {'nm': NelderMeadSimplexSolver, 'powell': PowellDirectionalSolver}.get(kind)
-    s = s(dim) if s else DifferentialEvolutionSolver(dim, 3 * dim)
-    x0 = [round(rng.uniform(-2, 2), 2) for _ in range(dim)]
-    if kind == 'de': s.SetRandomInitialPoints([-2.0] * dim, [2.0] * dim)
-    else: s.SetInitialPoints(x0)
-    G = 120
-    s.SetEvaluationLimits(G, 10 ** 6)
     # the ordinary stop: far away, or likely to fire at the very step a collapse is first reported (same window, energy tolerance of the
     # same order) - then the solver stops and must not half-apply that collapse
     stopkind = rng.choice(['late', 'late', 'same_window', 'vtr'])
@@ -242,98 +278,118 @@ def run_solver(rng, obs):
     terms = [stop]
     if 'at' in conds: terms.append(mt.CollapseAt(target, tolerance=tol, generations=gens))
     if 'as' in conds: terms.append(mt.CollapseAs(False, tolerance=tol, generations=gens))
-    s.SetTermination(mt.Or(*terms))
-    # ledger
-    fixed, tied = {}, set()              # index -> value ; pairs
-    when = {}                            # ('pin', i) / ('tie', i, j) -> number of the Collapse() call that applied it
-    applied = []
-    bad = []
-    def groups():
-        parent = list(range(dim))
-        def find(i):
-            while parent[i] != i: i = parent[i]
-            return i
-        for (i, j) in tied: parent[find(i)] = find(j)
-        g = {}
-        for i in range(dim): g.setdefault(find(i), []).append(i)
-        return list(g.values())
-    def relation_violations(x):
-        """pins hold exactly; tied members are equal; a tied group that contains pinned members sits at one of their pinned values"""
-        out = []
-        for g in groups():
-            pins = [fixed[i] for i in g if i in fixed]
-            vals = [x[i] for i in g]
-            ok = len(set(vals)) == 1 and (not pins or vals[0] in pins)
-            if not ok:
-                late = [(i, j) for (i, j) in tied if i in g and any(('pin', m) in when and when[('pin', m)] < when[('tie', i, j)] for m in (i, j))]
-                out.append({'group': g, 'values': vals, 'pinned': {str(i): fixed[i] for i in g if i in fixed}, 'ties_applied_after_a_pin_of_a_member': late,
-                            'tie_collapse_calls': sorted(set(when[('tie', i, j)] for (i, j) in tied if i in g))})
-        return out
-    def hook(seq, x):
-        if fixed or tied:
-            v = relation_violations(x)
-            if v and len(bad) < 4: bad.append({'seq': seq, 'x': list(x), 'groups': v})
-    probe.hooks.append(hook)
-    real_collapse = s.Collapse
-    def masks():
-        st = mt.state(s._termination)
-        out = {}
-        for k, v in st.items():
-            if k.startswith('Collapse'): out[k.split(' with ')[0]] = v.get('mask')
-        return out
-    def Collapse(*a, **kw):
-        before = masks()
+    import mystic.collapse as mc
+    def solve_once(round_):
+        probe = K.CostProbe(raw)
+        s = {'nm': NelderMeadSimplexSolver, 'powell': PowellDirectionalSolver}.get(kind)
+        s = s(dim) if s else DifferentialEvolutionSolver(dim, 3 * dim)
+        x0 = [round(rng.uniform(-2, 2), 2) for _ in range(dim)]
+        if 'as' in conds and rng.random() < 0.5:
+            # a start whose two coordinates already (nearly) coincide: the tie is reported at the first eligible check
+            i_, j_ = rng.sample(range(dim), 2); x0[j_] = x0[i_] + tol / 16.0
+        if kind == 'de': s.SetRandomInitialPoints([-2.0] * dim, [2.0] * dim)
+        else: s.SetInitialPoints(x0)
+        G = 120
+        s.SetEvaluationLimits(G, 10 ** 6)
+        s.SetTermination(mt.Or(*terms))
+        # ledger
+        fixed, tied = {}, set()              # index -> value ; pairs
+        when = {}                            # ('pin', i) / ('tie', i, j) -> number of the Collapse() call that applied it
+        applied = []
+        bad = []
+        def groups():
+            parent = list(range(dim))
+            def find(i):
+                while parent[i] != i: i = parent[i]
+                return i
+            for (i, j) in tied: parent[find(i)] = find(j)
+            g = {}
+            for i in range(dim): g.setdefault(find(i), []).append(i)
+            return list(g.values())
+        def relation_violations(x):
+            """pins hold exactly; tied members are equal; a tied group that contains pinned members sits at one of their pinned values"""
+            out = []
+            for g in groups():
+                pins = [fixed[i] for i in g if i in fixed]
+                vals = [x[i] for i in g]
+                ok = len(set(vals)) == 1 and (not pins or vals[0] in pins)
+                if not ok:
+                    late = [(i, j) for (i, j) in tied if i in g and any(('pin', m) in when and when[('pin', m)] < when[('tie', i, j)] for m in (i, j))]
+                    out.append({'group': g, 'values': vals, 'pinned': {str(i): fixed[i] for i in g if i in fixed}, 'ties_applied_after_a_pin_of_a_member': late,
+                                'tie_collapse_calls': sorted(set(when[('tie', i, j)] for (i, j) in tied if i in g))})
+            return out
+        def hook(seq, x):
+            if fixed or tied:
+                v = relation_violations(x)
+                if v and len(bad) < 4: bad.append({'seq': seq, 'x': list(x), 'groups': v})
+        probe.hooks.append(hook)
+        real_collapse = s.Collapse
+        def masks():
+            st = mt.state(s._termination)
+            out = {}
+            for k, v in st.items():
+                if k.startswith('Collapse'): out[k.split(' with ')[0]] = v.get('mask')
+            return out
+        def Collapse(*a, **kw):
+            before = masks()
+            best = [float(v) for v in np.ravel(s.bestSolution)]
+            res = real_collapse(*a, **kw)
+            if res:
+                after = masks()
+                rec = {'before': {k: sorted(map(str, v)) if v else v for k, v in before.items()}, 'applied': {}}
+                for k, v in res.items():
+                    name = k.split(' with ')[0]
+                    rec['applied'][name] = sorted(map(str, v))
+                    prev = set(before.get(name) or set())
+                    now = set(after.get(name) or set())
+                    obs.check(now == prev | set(v), 'solver:the termination mask grows by exactly what was applied', condition=name, before=sorted(map(str, prev)),
+                              applied=sorted(map(str, v)), after=sorted(map(str, now)), solver=kind)
+                    obs.check(not (prev & set(v)), 'solver:the same collapse is never reported again', condition=name, again=sorted(map(str, prev & set(v))), solver=kind)
+                    if name == 'CollapseAt':
+                        for i in v:
+                            fixed[int(i)] = (float(target[int(i)]) if isinstance(target, list) else float(target)) if target is not None else best[int(i)]
+                            when[('pin', int(i))] = len(applied)
+                    elif name == 'CollapseAs':
+                        for (i, j) in v:
+                            tied.add((int(i), int(j))); when[('tie', int(i), int(j))] = len(applied)
+                rec['calls_at'] = probe.n
+                rec['best'] = best
+                applied.append(rec)
+                obs.event('collapses_applied')
+            return res
+        s.Collapse = Collapse
+        nstep = [0]
+        real_step = s.Step
+        class TooLong(Exception): pass
+        def Step(*a, **kw):
+            nstep[0] += 1
+            if nstep[0] > (G + 2) * (dim * dim + 4): raise TooLong()
+            return real_step(*a, **kw)
+        s.Step = Step
+        try:
+            s.Solve(probe, disp=0)
+            finished = True
+        except TooLong:
+            finished = False
+        obs.check(finished and bool(s.Terminated()), 'solver:the solve still terminates after collapses', steps=nstep[0], solver=kind, collapses=len(applied))
+        obs.check(not bad, 'solver:every point evaluated after a collapse satisfies the collapsed relation exactly', first=bad[:2], solver=kind, fixed=fixed,
+                  tied=sorted(tied), ncalls=probe.n)
         best = [float(v) for v in np.ravel(s.bestSolution)]
-        res = real_collapse(*a, **kw)
-        if res:
-            after = masks()
-            rec = {'before': {k: sorted(map(str, v)) if v else v for k, v in before.items()}, 'applied': {}}
-            for k, v in res.items():
-                name = k.split(' with ')[0]
-                rec['applied'][name] = sorted(map(str, v))
-                prev = set(before.get(name) or set())
-                now = set(after.get(name) or set())
-                obs.check(now == prev | set(v), 'solver:the termination mask grows by exactly what was applied', condition=name, before=sorted(map(str, prev)),
-                          applied=sorted(map(str, v)), after=sorted(map(str, now)), solver=kind)
-                obs.check(not (prev & set(v)), 'solver:the same collapse is never reported again', condition=name, again=sorted(map(str, prev & set(v))), solver=kind)
-                if name == 'CollapseAt':
-                    for i in v:
-                        fixed[int(i)] = (float(target[int(i)]) if isinstance(target, list) else float(target)) if target is not None else best[int(i)]
-                        when[('pin', int(i))] = len(applied)
-                elif name == 'CollapseAs':
-                    for (i, j) in v:
-                        tied.add((int(i), int(j))); when[('tie', int(i), int(j))] = len(applied)
-            rec['calls_at'] = probe.n
-            rec['best'] = best
-            applied.append(rec)
-            obs.event('collapses_applied')
-        return res
-    s.Collapse = Collapse
-    nstep = [0]
-    real_step = s.Step
-    class TooLong(Exception): pass
-    def Step(*a, **kw):
-        nstep[0] += 1
-        if nstep[0] > (G + 2) * (dim * dim + 4): raise TooLong()
-        return real_step(*a, **kw)
-    s.Step = Step
-    try:
-        s.Solve(probe, disp=0)
-        finished = True
-    except TooLong:
-        finished = False
-    obs.check(finished and bool(s.Terminated()), 'solver:the solve still terminates after collapses', steps=nstep[0], solver=kind, collapses=len(applied))
-    obs.check(not bad, 'solver:every point evaluated after a collapse satisfies the collapsed relation exactly', first=bad[:2], solver=kind, fixed=fixed,
-              tied=sorted(tied), ncalls=probe.n)
-    best = [float(v) for v in np.ravel(s.bestSolution)]
-    fv = relation_violations(best) if (fixed or tied) else []
-    obs.check(not fv, 'solver:the final solution satisfies the collapsed relations exactly', best=best, fixed=fixed, tied=sorted(tied), solver=kind,
-              calls_after_last_collapse=(probe.n - applied[-1]['calls_at']) if applied else None,
-              best_unchanged_since_a_collapse=any(a.get('best') == best for a in applied), stop=str(s.Terminated(info=True))[:100],
-              first=[{'seq': None, 'x': best, 'groups': fv}] if fv else [])
-    obs.event('cost_calls', probe.n)
-    obs.nontrivial = len(applied) >= 2
-    obs.notes = {'collapses': len(applied), 'fixed': {str(k): v for k, v in fixed.items()}, 'tied': sorted(tied), 'steps': nstep[0], 'stop': str(s.Terminated(info=True))[:120]}
+        fv = relation_violations(best) if (fixed or tied) else []
+        obs.check(not fv, 'solver:the final solution satisfies the collapsed relations exactly', best=best, fixed=fixed, tied=sorted(tied), solver=kind,
+                  calls_after_last_collapse=(probe.n - applied[-1]['calls_at']) if applied else None,
+                  best_unchanged_since_a_collapse=any(a.get('best') == best for a in applied), stop=str(s.Terminated(info=True))[:100],
+                  first=[{'seq': None, 'x': best, 'groups': fv}] if fv else [])
+        obs.event('cost_calls', probe.n)
+        obs.nontrivial = len(applied) >= 2
+        obs.notes = {'collapses': len(applied), 'fixed': {str(k): v for k, v in fixed.items()}, 'tied': sorted(tied), 'steps': nstep[0], 'stop': str(s.Terminated(info=True))[:120]}
+
+
+    solve_once(0)
+    if rng.random() < 0.35:
+        # the SAME condition objects serve a second, fresh solver (multi-start use): nothing may be remembered from the first solve
+        obs.event('termination_objects_reused')
+        solve_once(1)
 
 
 def run_mask_update(rng, obs):
@@ -471,4 +527,4 @@ def run_case(cls, idx, rng, obs):
     import warnings
     warnings.simplefilter('ignore')
     np.seterr(all='ignore')
-    return {'detect_params': run_detect_params, 'detect_measures': run_detect_measures, 'solver': run_solver, 'mask_update': run_mask_update, 'impose_measure': run_impose_measure}[cls](rng, obs)
+    return {'detect_params': run_detect_params, 'detect_measures': run_detect_measures, 'solver': run_solver, 'mask_update': run_mask_update, 'impose_measure': run_impose_measure, 'condition_objects': run_condition_objects}[cls](rng, obs)
